@@ -47,6 +47,14 @@ def heapGet (a : Addr) : M Cell := do
 def heapSet (a : Addr) (c : Cell) : M Unit :=
   modS fun s => { s with heap := s.heap.set! a c }
 
+/-- `*p.Value = v` through an `*ObjectPtr` whose cell is `a`.  A cell of another kind at `a`
+    is an ill-typed model heap (no VM state has it): the run leaves the modelled subset, the
+    cell is not overwritten. -/
+def boxSet (a : Addr) (v : V) : M Unit := do
+  match (← heapGet a) with
+  | .box _ => heapSet a (.box v)
+  | _ => unsupported "model: bad box"
+
 def alloc (c : Cell) : M Addr := do
   let s ← getS
   let a := s.heap.size
